@@ -246,11 +246,13 @@ func (r *runner) Op(t []string) string {
 		if timed {
 			r.v.SetClientTimeout(scriptedTimeout)
 		}
+		before := r.v.FailedWrites()
 		wait, retry := r.v.SendWrite()
 		if timed {
 			r.v.SetClientTimeout(remotewrite.DefaultTimeout)
-			// the request is in the socket even if the client gave up first: wait for the handler to see it
-			for i := 0; i < 3000; i++ {
+			// a write was attempted and failed: the request is in the socket even if the
+			// client gave up first; wait for the handler to see it
+			for i := 0; i < 2000 && r.v.FailedWrites() != before; i++ {
 				r.rm.mu.Lock()
 				n := len(r.rm.got)
 				r.rm.mu.Unlock()
